@@ -21,6 +21,11 @@ func runC08(c *Ctx) {
 	}
 	ruleR1(c, "X3", isX3)
 	ruleR1(c, "R1", func(k string) bool { return !isX3(k) })
+	// X4: no two nodes share one child list. A result or scratch copy that takes
+	// another node's children as they are is the document under a second name:
+	// code that normalises "its own copy" in place (explode before printing,
+	// key re-tagging in the properties encoder) then rewrites the input.
+	ruleK1w(c, "X4", 12)
 	r.Assume("expression strings parsed at run time from constants (array_to_map, PrettyPrintExp) are not visible to the IR")
 	r.Assume("third-party functions do not store into CandidateNode fields (they do not know the type); reflection-based copier.Copy is only applied to preference structs")
 }
